@@ -259,3 +259,58 @@ func (p *Pool) Put(x interface{}) {
 	p.free = append(p.free, x)
 	p.mu.Unlock()
 }
+
+// SendCtx is `select { case <-done: ; case ch <- v: }` as one scheduling point with a seeded
+// choice when both are ready (for harness code, which is not rewritten by simgen).
+func SendCtx[T any](site string, done <-chan struct{}, ch chan<- T, v T) (sent bool) {
+	Pre(site)
+	defer Post()
+	for _, i := range SelectOrder(2) {
+		if i == 0 {
+			select {
+			case <-done:
+				return false
+			default:
+			}
+		} else {
+			select {
+			case ch <- v:
+				return true
+			default:
+			}
+		}
+	}
+	select {
+	case <-done:
+		return false
+	case ch <- v:
+		return true
+	}
+}
+
+// RecvCtx is `select { case <-done: ; case v, ok = <-ch: }` with a seeded choice.
+func RecvCtx[T any](site string, done <-chan struct{}, ch <-chan T) (v T, ok bool, cancelled bool) {
+	Pre(site)
+	defer Post()
+	for _, i := range SelectOrder(2) {
+		if i == 0 {
+			select {
+			case <-done:
+				return v, false, true
+			default:
+			}
+		} else {
+			select {
+			case v, ok = <-ch:
+				return v, ok, false
+			default:
+			}
+		}
+	}
+	select {
+	case <-done:
+		return v, false, true
+	case v, ok = <-ch:
+		return v, ok, false
+	}
+}
